@@ -35,7 +35,7 @@ class LogAgent(Agent):
         self.model.log.append(("handled", self.id, event.data, event.name, event.receiver_id, self.token))
 
     def handle_events(self, time, sim_round, step):
-        self.model.log.append(("handle", self.id, time))
+        self.model.log.append(("handle", self.id, time, self.state))
         return super().handle_events(time, sim_round, step)
 
     def act(self, time, sim_round, step):
@@ -97,15 +97,24 @@ class LogModel(Model):
                     self.agent_type_map[t] = []
                 self.agents = []
 
+    def _sends(self, phase):
+        # events sent by the model's own callbacks: script["send_begin" | "send_end"][k] = [(sender id, receiver id, delay or None, uid), ...]
+        for (snd, rcv, delay, uid) in self.script.get("send_" + phase, {}).get(str(self.step_counter), []):
+            ev = Event("ping", snd, rcv, data=uid) if delay is None else DelayedEvent("pong", snd, rcv, delay, data=uid)
+            self.log.append(("sent", snd, rcv, uid, self.step_counter, delay))
+            self.enqueue_event(ev)
+
     def begin_round(self, time, sim_round, step):
         self.step_counter += 1
         self.log.append(("begin", time, sim_round, step, self.step_counter))
         self._ops("begin")
+        self._sends("begin")
         self.log.append(("agents", [a.id for a in self.agents], [getattr(a, "token", None) for a in self.agents]))
 
     def end_round(self, time, sim_round, step):
         self.log.append(("end", time, sim_round, step))
         self._ops("end")
+        self._sends("end")
         # the population as the model itself sees it when the step's statistics are due
         self.log.append(("population", time, [(a.id, a.agent_type, a.state, copy.deepcopy(a.properties)) for a in self.agents]))
 
